@@ -50,7 +50,11 @@ re-run any of them with `python3 tools/seedtest.py run <name> [check ids]`.
 
 {n} confirmed changes; {ncaught} are reported as a VIOLATION by at least one quick-tier check,
 {own_caught} by the check of the property they were written against. Where a change was first
-missed, the generator or oracle was strengthened (never the other way round) and the change re-run:
+missed, the generator or oracle was strengthened (never the other way round) and the change re-run —
+so these totals are in-sample; the figures to quote are the FIRST-PASS ones, before any strengthening: round 4
+22 of 24, round 5 15 of 18 reported (rounds 1–3: every first-pass miss is listed below; about nine in ten were
+reported at once). About one in five of the reported changes is reported through a broken tie or call-order fact
+only (`no-failing-input-found`), not with an input on which the oracle sees the property fail:
 
 A bookkeeping accident of the first round is part of the record: for a while the Lean build was
 broken by a merge in progress, every check failed with "lake build failed", and the evaluation
